@@ -449,6 +449,51 @@ fn mutations(base: &Built, rng: &mut Rng, full: bool) -> Vec<(String, Vec<u8>)> 
 // ------------------------------------------------------------------------------------------------
 // generator
 // ------------------------------------------------------------------------------------------------
+/// The receive path of the REAL UDP network (src/network/udp.rs: recv -> decode) must hand on exactly the datagrams
+/// that `network::deserialize` accepts.  A few datagrams (a valid vote, the same with trailing bytes, truncated,
+/// empty) are sent over the loopback interface to a real `UdpNetwork`, each followed by a sentinel message.
+/// Returns (datagrams judged, findings, reason if the probe could not run).
+fn udp_receive_probe() -> (u64, Vec<String>, Option<String>) {
+    use alpenglow::network::{Network, UdpNetwork};
+    let rt = match tokio::runtime::Builder::new_current_thread().enable_all().build() { Ok(r) => r, Err(e) => return (0, vec![], Some(format!("no runtime: {e}"))) };
+    let net = {
+        let _g = rt.enter();
+        match catch_unwind(AssertUnwindSafe(UdpNetwork::<ConsensusMessage, ConsensusMessage>::new_with_any_port)) { Ok(n) => n, Err(_) => return (0, vec![], Some("UDP socket could not be bound".into())) }
+    };
+    let port = net.port();
+    let sender = match std::net::UdpSocket::bind("127.0.0.1:0") { Ok(s) => s, Err(e) => return (0, vec![], Some(format!("no loopback sender: {e}"))) };
+    let sk = bls_key(4242);
+    let enc = |v: Vote| wincode::serialize(&ConsensusMessage::Vote(v)).expect("encode");
+    let valid = enc(Vote::new_notar(Slot::new(5), v2h(&[9u8; 32]).into(), &sk, ValidatorIndex::new(1)));
+    let sentinel = enc(Vote::new_skip(Slot::new(7777), &sk, ValidatorIndex::new(2)));
+    let mut samples: Vec<(&str, Vec<u8>)> = vec![("valid", valid.clone())];
+    { let mut b = valid.clone(); b.push(0); samples.push(("valid-plus-one-trailing-byte", b)); }
+    { let mut b = valid.clone(); b.extend_from_slice(&[1, 2, 3, 4, 5, 6, 7, 8]); samples.push(("valid-plus-trailing-bytes", b)); }
+    { let mut b = valid.clone(); b.extend_from_slice(&valid); samples.push(("valid-twice-in-one-datagram", b)); }
+    { let mut b = valid.clone(); b.pop(); samples.push(("truncated", b)); }
+    samples.push(("empty", vec![]));
+    let mut findings = Vec::new();
+    let mut judged = 0u64;
+    let recv_one = |rt: &tokio::runtime::Runtime| -> Option<Vec<u8>> {
+        rt.block_on(async { tokio::time::timeout(std::time::Duration::from_secs(5), net.receive()).await.ok().and_then(|r| r.ok()) }).map(|m| wincode::serialize(&m).expect("encode"))
+    };
+    for (name, bytes) in samples {
+        let accepted = alpenglow::network::deserialize::<ConsensusMessage>(&bytes).is_ok();
+        if sender.send_to(&bytes, ("127.0.0.1", port)).is_err() || sender.send_to(&sentinel, ("127.0.0.1", port)).is_err() { return (judged, findings, Some("loopback send failed".into())); }
+        let Some(first) = recv_one(&rt) else { return (judged, findings, Some("nothing received over loopback".into())); };
+        judged += 1;
+        if first == sentinel {
+            if accepted { findings.push(format!("wire:udp-receive-path:{}:dropped-although-deserialize-accepts", name)); }
+            continue;
+        }
+        if !accepted { findings.push(format!("wire:udp-receive-path:{}:delivered-although-deserialize-rejects", name)); }
+        else if first != bytes { findings.push(format!("wire:udp-receive-path:{}:delivered-another-message", name)); }
+        // drain the sentinel
+        let _ = recv_one(&rt);
+    }
+    (judged, findings, None)
+}
+
 pub fn gen_c19(seed: u64, tier: Tier) -> CaseSet {
     let mut rng = Rng::new(seed ^ 0xC19);
     let quick = tier == Tier::Quick;
@@ -738,6 +783,11 @@ pub fn gen_c19(seed: u64, tier: Tier) -> CaseSet {
     // the decoder's bitmask cap must be exactly what MAX_SIGNERS needs
     if probe_max_signer_words() != alpenglow::crypto::aggsig::verif_max_signers().div_ceil(64) {
         stats.harness_findings.push((0, format!("wire:consensus:bitmask-cap-{}-words-differs-from-MAX_SIGNERS-{}", probe_max_signer_words(), alpenglow::crypto::aggsig::verif_max_signers())));
+    }
+    {
+        let (judged, fs, skipped) = udp_receive_probe();
+        for f in fs { stats.harness_findings.push((0, f)); }
+        stats.distribution.push(("udp_receive_path_datagrams_judged".into(), match skipped { None => judged.to_string(), Some(r) => format!("{} (probe stopped: {})", judged, r) }));
     }
     stats.rule = format!("{} messages built by the crate's constructors (votes of 5 kinds with boundary slots / signer indices; certificates of 5 types over validator sets of 1,2,3,63,64,65,127,128,129,MAX-64,MAX-63,MAX-1,MAX (MAX = 64 * probed bitmask cap) and random sizes with signer subsets lowest / highest / all / random half / word boundaries and both halves of mixed certificates; regular and coding-only shreds for slice payloads hitting shard sizes 2..1024; repair requests, responses with double-Merkle proofs from blocks of 1..1024 slices, shred responses, nacks; transactions of 0..512 bytes), each encoded by wincode::serialize and decoded by network::deserialize; the mutation catalogue on the encodings (truncation, extension, doubling, enum tags, option tags, bool bytes, slice / shred indices at and beyond their bounds, vector lengths around the preallocation limit, num_bits / word count of the signer bitmask around 64*len and the {}-word cap, extra bitmask words, dead bits, BLS point corruption incl. infinity / compression flags); arbitrary byte strings per decoder; shred lengths of all four shredders for {} distinct shard sizes; encoded length of all five certificate types for {} validator counts in 1..={}; non-trivial = distinct byte string that is not a plain built message, plus distinct shard sizes and validator counts", nbuilt, probe_max_signer_words(), shard_sizes.len(), cert_len_n.len(), max_signers);
     let mut v: Vec<_> = dist.into_iter().collect(); v.sort();
